@@ -192,7 +192,17 @@ type c09RandIn struct {
 	Stream model.Bytes `json:"stream"`
 	Mode   string      `json:"mode"` // range | skip-small | fault
 	FailAt int         `json:"fail_at,omitempty"`
+	Budget int         `json:"byte_budget,omitempty"` // fault mode: the source runs dry after this many octets (short read + error)
 	Group  int         `json:"group"`
+}
+
+// inject runs f with the failing random source the input describes (failure at a Read call, or after a byte budget).
+func (in c09RandIn) inject(f func(en *probe.Entropy)) {
+	if in.Budget > 0 {
+		probe.WithEntropyBudget(in.Stream, in.Budget, f)
+	} else {
+		probe.WithEntropy(in.Stream, in.FailAt, f)
+	}
 }
 
 var c09Random = probe.Define("C09", "exponents", func(t *rapid.T) c09RandIn {
@@ -216,6 +226,9 @@ var c09Random = probe.Define("C09", "exponents", func(t *rapid.T) c09RandIn {
 		in.Mode = "fault"
 		in.Stream = gen.Fill(t, "stream", 32)
 		in.FailAt = rapid.IntRange(1, 4).Draw(t, "failat")
+		if rapid.Bool().Draw(t, "bytebudget") {
+			in.FailAt, in.Budget = 0, rapid.IntRange(1, 300).Draw(t, "budget")
+		}
 	}
 	return in
 }, func(in c09RandIn) probe.Outcome {
@@ -273,12 +286,18 @@ var c09Random = probe.Define("C09", "exponents", func(t *rapid.T) c09RandIn {
 	case "fault":
 		// the fault-free run tells how many reads there are; a failure at read k <= that many must surface
 		_, _, e0 := draw(in.Stream, 0)
-		v, err, e := draw(in.Stream, in.FailAt)
+		var err error
+		var v *big.Int
+		var e *probe.Entropy
+		in.inject(func(en *probe.Entropy) {
+			err = probe.Try(func() error { var x error; v, x = security.GenerateRandomNumber(); return x })
+			e = en
+		})
 		if probe.IsPanic(err) {
 			return probe.Fail("GenerateRandomNumber panics when the random source fails: %v", err)
 		}
 		if e.Failed && (err == nil || v != nil) {
-			return probe.Fail("random source failed at read %d but GenerateRandomNumber returned a number / no error", in.FailAt)
+			return probe.Fail("random source failed (read %d / after %d octets) but GenerateRandomNumber returned a number / no error", in.FailAt, in.Budget)
 		}
 		_ = e0
 		// the same through CalculateDiffieHellmanMaterials and NewIKESAKey
@@ -287,7 +306,7 @@ var c09Random = probe.Define("C09", "exponents", func(t *rapid.T) c09RandIn {
 		peer := ref.LeftPad(big.NewInt(4), ref.DHs[in.Group].Bits/8)
 		var pub, shared []byte
 		var failed bool
-		probe.WithEntropy(in.Stream, in.FailAt, func(en *probe.Entropy) {
+		in.inject(func(en *probe.Entropy) {
 			err = probe.Try(func() error {
 				var x error
 				pub, shared, x = security.CalculateDiffieHellmanMaterials(sa, peer)
@@ -307,7 +326,7 @@ var c09Random = probe.Define("C09", "exponents", func(t *rapid.T) c09RandIn {
 			return probe.Fail("ToProposal: %v", err)
 		}
 		var nsa *security.IKESAKey
-		probe.WithEntropy(in.Stream, in.FailAt, func(en *probe.Entropy) {
+		in.inject(func(en *probe.Entropy) {
 			err = probe.Try(func() error {
 				var x error
 				nsa, pub, x = security.NewIKESAKey(prop, peer, []byte("nonces"), 1, 2)
@@ -378,6 +397,9 @@ func TestC09(t *testing.T) {
 				c09Random.Eval(c, c09RandIn{Group: g, Mode: "fault", Stream: model.Bytes{1, 2, 3}, FailAt: k})
 				// stream forcing two reads (first candidate too small), failure at the second read
 				c09Random.Eval(c, c09RandIn{Group: g, Mode: "fault", Stream: make(model.Bytes, 256), FailAt: k})
+			}
+			for _, b := range []int{1, 2, 16, 128, 255} {
+				c09Random.Eval(c, c09RandIn{Group: g, Mode: "fault", Stream: model.Bytes{9, 9}, Budget: b})
 			}
 		}
 	}
